@@ -92,7 +92,7 @@ func c16HasColon(text []rune) bool {
 	return has
 }
 
-// c16ColonClass is the class predicate of known finding "trailing-colon-segment-match":
+// c16ColonClass is the class predicate of known finding c16ClsColon ("c16-trailing-colon-segment-match"):
 // with fuzzy matching on, a query that ends in ':' is matched against the segments of a
 // label WITHOUT its colon, so a label is kept although the typed text is not a subsequence.
 func c16ColonClass(fuzzy bool, label, frag []rune) bool {
@@ -131,8 +131,8 @@ func verifC16Match(maxLabel, maxFrag int) {
 	pre := c16Prefix(fl, ff)
 	if kept {
 		if fuzzy {
-			if zzverif.Known("trailing-colon-segment-match") && c16ColonClass(fuzzy, fl, ff) {
-				zzverif.Reach("kf:trailing-colon-segment-match")
+			if zzverif.Known(c16ClsColon) && c16ColonClass(fuzzy, fl, ff) {
+				zzverif.Reach("kf:" + c16ClsColon)
 			} else {
 				zzverif.Assert(sub, "fuzzy on: a kept label has the fragment as case-insensitive subsequence")
 			}
